@@ -81,7 +81,7 @@ Definition ex_pv := mkPV false ex_cands 0 (fun _ => 0).
 Definition ex_tx := mkTx 9001 true false true false 39 4 32 0 0 false 21000 true None.
 Definition ex_exec (_ : bctx) (st : N) (t : txn) : option (N * receipt) := Some (st + t_id t, mkRc 21000 false 5).
 Definition ex_header := mkH 6 1010 10000000 222 21000 52 1 1 9008 1 (32, 777) true None 146 (Some 22) (Some (32, 4242)).
-Definition ex_block := mkB ex_header [ex_tx].
+Definition ex_block := mkB ex_header [ex_tx] None.
 Definition ex_process b now :=
   process N ex_exec (fun _ _ st _ => st) (fun _ st => Some st) (fun _ => true) (fun st => st)
           (fun rs => N.of_nat (length rs)) (fun ts => N.of_nat (length ts)) (fun _ _ => false) (fun _ => None)
@@ -93,13 +93,18 @@ Proof. split; [vm_compute; reflexivity|]. split; [split; vm_compute; reflexivity
 
 (* timestamp one interval later (not the signer's slot), gas limit one beyond the bound, an expired transaction *)
 Example ex_mutants :
-  ex_process (mkB (mkH 6 1020 10000000 222 21000 52 1 1 9008 1 (32, 777) true None 146 (Some 22) (Some (32, 4242))) [ex_tx]) 1015
+  ex_process (mkB (mkH 6 1020 10000000 222 21000 52 1 1 9008 1 (32, 777) true None 146 (Some 22) (Some (32, 4242))) [ex_tx] None) 1015
     = Rejected N (Critical 22) /\
-  ex_process (mkB (mkH 6 1010 10009766 222 21000 52 1 1 9008 1 (32, 777) true None 146 (Some 22) (Some (32, 4242))) [ex_tx]) 1005
+  ex_process (mkB (mkH 6 1010 10009766 222 21000 52 1 1 9008 1 (32, 777) true None 146 (Some 22) (Some (32, 4242))) [ex_tx] None) 1005
     = Rejected N (Critical 6) /\
-  ex_process (mkB ex_header [mkTx 9001 true false true false 39 1 4 0 0 false 21000 true None]) 1005
+  ex_process (mkB ex_header [mkTx 9001 true false true false 39 1 4 0 0 false 21000 true None] None) 1005
     = Rejected N (Critical 37) /\
-  ex_process ex_block 999 = Rejected N Future.
+  ex_process ex_block 999 = Rejected N Future /\
+  (* a wrong receipts root is accepted exactly when the correction table lists the recomputed root for this block *)
+  ex_process (mkB (mkH 6 1010 10000000 222 21000 52 1 1 9008 77 (32, 777) true None 146 (Some 22) (Some (32, 4242))) [ex_tx] (Some 1)) 1005
+    = Accepted N 9008 [mkRc 21000 false 5] /\
+  ex_process (mkB (mkH 6 1010 10000000 222 21000 52 1 1 9008 77 (32, 777) true None 146 (Some 22) (Some (32, 4242))) [ex_tx] None) 1005
+    = Rejected N (Critical 56).
 Proof. repeat split; vm_compute; reflexivity. Qed.
 
 Print Assumptions gas_limit_rule.
